@@ -98,6 +98,8 @@ type server struct {
 	burned    uint64
 	lastStartSeq uint64
 	trailing  uint64
+	startTerm, startMaxTerm uint64 // durable term / largest reported term when the current incarnation was created
+	installedMax uint64 // largest index of a snapshot this server installed from a leader
 	electNotCandTerm uint64 // term of an election this server started while its state was not Candidate
 }
 
